@@ -61,7 +61,8 @@ func (l *limitReadCloser) Read(p []byte) (n int, err error) {
 		if l.N == -1 {
 			n--
 		}
-		if err == nil {
+		// The source has more than N bytes even if it reported EOF together with the extra byte
+		if err == nil || err == io.EOF {
 			err = ErrStreamTooLarge
 		}
 		if !l.closed {
